@@ -75,7 +75,6 @@ pub struct InjectedPanic;
 pub struct BudgetExceeded;
 
 pub const FRESH_BUDGET: u32 = 1000;
-pub const TOTAL_BUDGET: u32 = 1400;
 pub const SWEEP_BUDGET: u32 = 1000;
 
 pub struct SimRng {
@@ -176,9 +175,6 @@ impl SimRng {
         self.attempt += 1;
         self.total_in_call += 1;
         let req = dest.len() as u32;
-        if self.total_in_call > TOTAL_BUDGET {
-            std::panic::panic_any(BudgetExceeded);
-        }
         if let Some((buf, pos)) = &mut self.stream {
             // Stream mode: no faults, splitting law holds
             // the stream is conceptually infinite: past the scripted part it continues with a fixed
@@ -218,6 +214,9 @@ impl SimRng {
                 } else {
                     // nothing to repeat (first draw, or a different request size): a fresh word
                     self.fresh_in_call += 1;
+                    if self.fresh_in_call > FRESH_BUDGET {
+                        std::panic::panic_any(BudgetExceeded);
+                    }
                     self.fresh.fill(dest);
                     (Resp::Ok(dest.to_vec()), Src::Fresh)
                 }
